@@ -77,7 +77,7 @@ def write_coqproject():
     return False
 
 
-def coq_make(targets=None, timeout=3000):
+def coq_make(targets=None, timeout=3000, keep_going=False):
     """Regenerate Gen/*.v from the source, then (incrementally) build `targets` (.vo paths relative to coq/),
     or everything.  Serialised by a file lock.  Raises CoqBuildError with the log."""
     import facts
@@ -91,7 +91,7 @@ def coq_make(targets=None, timeout=3000):
             if rc:
                 raise CoqBuildError('Makefile', out)
         tgt = ' '.join(targets) if targets else ''
-        rc, out = sh('timeout %d make -j%d %s 2>&1' % (timeout, NCPU, tgt), cwd=COQ, timeout=timeout + 30)
+        rc, out = sh('timeout %d make %s -j%d %s 2>&1' % (timeout, '-k' if keep_going else '', NCPU, tgt), cwd=COQ, timeout=timeout + 30)
         if rc:
             raise CoqBuildError(tgt or 'all', out[-6000:])
         return out
@@ -135,14 +135,10 @@ def scan_forbidden():
 THEOREM_RE = re.compile(r'^\s*(Theorem|Lemma|Corollary|Example|Fact|Proposition)\s+([A-Za-z0-9_\']+)', re.M)
 
 
-def check_properties_file(pid, timeout=900):
-    """Build the dependencies of Properties/<pid>.v, then compile that file afresh and parse the
-    Print Assumptions output.  Returns a dict: obligations, discharged, theorems, axioms, ok, log."""
-    rel = 'theories/Properties/%s.v' % pid
+def _check_one_properties_file(pid, rel, timeout):
+    """Build the dependencies of one statements file, compile it afresh and parse the Print Assumptions output."""
     src = os.path.join(COQ, rel)
-    if not os.path.exists(src):
-        return {'obligations': 0, 'discharged': 0, 'theorems': [], 'axioms': [], 'ok': False, 'broken': ['Properties/%s.v is missing' % pid],
-                'log': 'Properties/%s.v is missing' % pid, 'checker_cmd': 'coqc (file missing)'}
+    base = os.path.basename(rel)
     text = open(src).read()
     text_nc = re.sub(r'\(\*.*?\*\)', '', text, flags=re.S)
     theorems = [m.group(2) for m in THEOREM_RE.finditer(text_nc)]
@@ -150,17 +146,13 @@ def check_properties_file(pid, timeout=900):
     res = {'obligations': len(theorems), 'discharged': 0, 'theorems': theorems, 'axioms': [], 'ok': False,
            'n_theorems': sum(1 for k in kinds if k != 'Example'), 'n_examples': sum(1 for k in kinds if k == 'Example'),
            'log': '', 'checker_cmd': 'coqc -Q theories E3FP %s (after make of its dependencies; Coq 8.16.1)' % rel}
-    bad = scan_forbidden()
-    if bad:
-        res['log'] = 'forbidden construct in the development: ' + '; '.join(bad[:5])
-        res['broken'] = bad[:5]
-        return res
     try:
         coq_make([rel + 'o'], timeout=timeout)
     except CoqBuildError as e:
-        res['log'] = e.log
+        import facts
+        res['log'] = e.log + ''.join('\nsource facts could not be regenerated by harness/%s: %s' % kv for kv in sorted(facts.ERRORS.items()))
         # how many statements were accepted before the failure?  count via the error line number
-        m = re.search(r'File "[^"]*Properties/%s\.v", line (\d+)' % pid, e.log)
+        m = re.search(r'File "[^"]*Properties/%s", line (\d+)' % re.escape(base), e.log)
         if m:
             line = int(m.group(1))
             upto = '\n'.join(text.split('\n')[:line - 1])
@@ -168,21 +160,20 @@ def check_properties_file(pid, timeout=900):
             res['discharged'] = max(0, len(THEOREM_RE.findall(upto)) - 1)
             res['broken'] = [t for t in theorems[res['discharged']:]][:1]
         else:
-            res['broken'] = ['(a dependency of Properties/%s.v)' % pid]
+            res['broken'] = ['(a dependency of Properties/%s)' % base]
         return res
     # fresh compile (make may have had it up to date): output carries the Print Assumptions text
     wd = tempfile.mkdtemp(prefix='prop_', dir=os.path.join(VERIF, 'work'))
     try:
-        rc, out = sh('timeout %d coqc -w -all -Q theories E3FP -o %s/%s.vo %s' % (timeout, wd, pid, rel), cwd=COQ,
+        rc, out = sh('timeout %d coqc -w -all -Q theories E3FP -o %s/%s.vo %s' % (timeout, wd, base[:-2], rel), cwd=COQ,
                      timeout=timeout + 30)
     finally:
         shutil.rmtree(wd, ignore_errors=True)
     res['log'] = out[-4000:]
     if rc:
-        res['broken'] = ['(coqc failed on Properties/%s.v)' % pid]
+        res['broken'] = ['(coqc failed on Properties/%s)' % base]
         return res
     closed = out.count('Closed under the global context')
-    axiom_blocks = re.findall(r'Axioms:\n((?:.+\n?)+?)(?=\n\S|\Z)', out)
     axioms = set()
     for blk in re.findall(r'Axioms:\s*\n((?:[^\n]*\n?)*?)(?=Closed under|Axioms:|\Z)', out):
         for m in re.finditer(r'^([A-Za-z_][A-Za-z0-9_.\']*)\s*:', blk, re.M):
@@ -202,6 +193,56 @@ def check_properties_file(pid, timeout=900):
         return res
     res['discharged'] = len(theorems)
     res['ok'] = True
+    return res
+
+
+def check_properties_file(pid, timeout=900):
+    """Re-checks Properties/<pid>.v (the property's theorems about the model) and, when present, Properties/<pid>Src.v (theorems
+    that the hand-written model equals definitions TRANSLATED from the source text on this run, Gen/*Source.v).
+    Returns a dict: obligations, discharged, theorems, axioms, ok, log, [broken], [source_tie].
+
+    The two files are treated differently in exactly one situation.  When the translator cannot READ the source any more (it is
+    fail-closed: an unknown construct raises), the Src obligations cannot even be stated; they are then reported as NOT ATTEMPTED
+    (`source_tie.status = "unreadable"`), the run is told to deepen its correspondence (ctx.escalate), and the property remains
+    decided by the theorems of <pid>.v plus the model/implementation correspondence - the tie this framework had before the
+    translator existed.  That the translator cannot parse a rewritten function says something about the translator, not about
+    the code.  When the source IS translated and a Src theorem no longer holds, the model provably differs from the source text:
+    that is a broken obligation like any other."""
+    rel = 'theories/Properties/%s.v' % pid
+    if not os.path.exists(os.path.join(COQ, rel)):
+        return {'obligations': 0, 'discharged': 0, 'theorems': [], 'axioms': [], 'ok': False, 'broken': ['Properties/%s.v is missing' % pid],
+                'log': 'Properties/%s.v is missing' % pid, 'checker_cmd': 'coqc (file missing)'}
+    bad = scan_forbidden()
+    if bad:
+        return {'obligations': 0, 'discharged': 0, 'theorems': [], 'axioms': [], 'ok': False, 'broken': bad[:5], 'checker_cmd': 'scan of the sources',
+                'log': 'forbidden construct in the development: ' + '; '.join(bad[:5])}
+    res = _check_one_properties_file(pid, rel, timeout)
+    src_rel = 'theories/Properties/%sSrc.v' % pid
+    if not os.path.exists(os.path.join(COQ, src_rel)):
+        return res
+    import facts
+    text = re.sub(r'\(\*.*?\*\)', '', open(os.path.join(COQ, src_rel)).read(), flags=re.S)
+    gens = sorted(set(re.findall(r'Gen\.([A-Za-z0-9_]+)', text)))
+    missing = [g for g in gens if not os.path.exists(os.path.join(THEORIES, 'Gen', g + '.v'))]
+    n_src = len(THEOREM_RE.findall(text))
+    if missing and facts.ERRORS:
+        res['source_tie'] = {'status': 'unreadable', 'file': src_rel, 'obligations_not_attempted': n_src, 'generated_files_missing': missing,
+                             'translator_errors': {k: v.split('\n')[0][:300] for k, v in facts.ERRORS.items()}}
+        return res
+    r2 = _check_one_properties_file(pid, src_rel, timeout)
+    res['source_tie'] = {'status': 'checked' if r2['ok'] else 'broken', 'file': src_rel, 'obligations': r2['obligations'], 'discharged': r2['discharged']}
+    res['obligations'] += r2['obligations']
+    res['discharged'] += r2['discharged']
+    res['theorems'] = res['theorems'] + r2['theorems']
+    res['n_theorems'] = (res.get('n_theorems') or 0) + (r2.get('n_theorems') or 0)
+    res['n_examples'] = (res.get('n_examples') or 0) + (r2.get('n_examples') or 0)
+    res['axioms'] = sorted(set(res['axioms']) | set(r2['axioms']))
+    res['checker_cmd'] += ' ; the same for %s' % src_rel
+    if not r2['ok']:
+        if res['ok']:
+            res['log'] = r2['log']
+            res['broken'] = r2.get('broken', ['?'])
+        res['ok'] = False
     return res
 
 
@@ -329,6 +370,10 @@ class Ctx(object):
         return self.tier == 'quick'
 
     def n(self, quick, thorough):
+        if self.quick and getattr(self, 'escalate', False):
+            # the source-derived obligations could not be attempted on this tree (translator could not read the source): the
+            # correspondence carries the tie alone and is run deeper (geometric mean of the two tiers' sizes)
+            return max(quick, int(round((quick * thorough) ** 0.5)))
         return quick if self.quick else thorough
 
     # -- bookkeeping
@@ -359,10 +404,28 @@ class Ctx(object):
         self.coverage['obligations_breakdown'] = {'theorems': res.get('n_theorems'), 'non_vacuity_examples': res.get('n_examples')}
         self.coverage['axioms_reported_by_Print_Assumptions'] = res['axioms']
         self.proof = res
+        tie = res.get('source_tie')
+        if tie:
+            self.coverage['source_derived_obligations'] = tie
+            if tie['status'] == 'unreadable':
+                self.escalate = True
+                msg = ('source-derived obligations NOT ATTEMPTED: the translator could not read the current source text (%s); the %d theorems of %s '
+                       'are not part of this run; the property is decided by the theorems of Properties/%s.v and a deepened correspondence'
+                       % ('; '.join('%s: %s' % kv for kv in sorted(tie['translator_errors'].items())), tie['obligations_not_attempted'], tie['file'], self.pid))
+                print('WARNING: ' + msg)
+                self.notes.append(msg)
         return res['ok']
 
     def finish(self):
         cov = self.coverage
+        # backstop: a broken proof obligation is ALWAYS reported.  Property modules call report_broken_proof(found_input) after
+        # their search; if a module mis-counts (e.g. takes a reproduced known finding for a found input) the run would otherwise
+        # end quietly with discharged < obligations.
+        proof = getattr(self, 'proof', None)
+        if proof is not None and not proof.get('ok') and not self.violations:
+            self.fail('proof obligation no longer checks: %s\n%s' % (', '.join(proof.get('broken', ['?'])), proof.get('log', '')[-1500:]),
+                      {'broken_theorem_or_file': proof.get('broken'), 'log_tail': proof.get('log', '')[-3000:]},
+                      no_input=True, kind='proof-obligation')
         cov['distinct_nontrivial'] = len(self.distinct)
         tb = ['Coq 8.16.1 kernel incl. vm_compute (no native_compute)',
               'axioms reported by Print Assumptions on this run: %s' % (', '.join(cov.get('axioms_reported_by_Print_Assumptions', [])) or 'none (closed under the global context)'),
@@ -425,7 +488,9 @@ def proof_step(ctx):
 
 def report_broken_proof(ctx, res, found_input):
     """Called after the search: if no concrete failing input was found, the broken obligation itself is the violation."""
-    if not found_input:
+    # `found_input` as computed by the property module is not trusted on its own (a reproduced KNOWN finding is not a found input):
+    # what counts is whether a violation that carries an input has actually been recorded
+    if not found_input or not any(not v.get('no_input') for v in ctx.violations):
         ctx.fail('proof obligation no longer checks: %s\n%s' % (', '.join(res.get('broken', ['?'])), res['log'][-1500:]),
                  {'broken_theorem_or_file': res.get('broken'), 'log_tail': res['log'][-3000:]},
                  no_input=True, kind='proof-obligation')
